@@ -66,11 +66,19 @@ func (db *DB) handleSubscription(ctx context.Context, r *request.Request) (<-cha
 			}
 			ctx := InitContext(ctx, txn)
 
+			// The bus carries the changes of every collection. A subscription is only concerned
+			// with the document-level commits of its own collection.
+			col, err := db.getCollectionByName(ctx, subRequest.Collection)
+			if err == nil && (evt.DocID == "" || evt.CollectionID != col.Version().CollectionID) {
+				txn.Discard(ctx)
+				continue
+			}
+
 			p := planner.New(ctx, identity.FromContext(ctx), db.documentACP, db)
 			s := subRequest.ToSelect(evt.DocID, evt.Cid.String())
 
 			result, err := p.RunSelection(ctx, s)
-			if err == nil && len(result) == 0 {
+			if err == nil && isEmptySelectionResult(result) {
 				txn.Discard(ctx)
 				continue // Don't send anything back to the client if the request yields an empty dataset.
 			}
@@ -91,4 +99,25 @@ func (db *DB) handleSubscription(ctx context.Context, r *request.Request) (<-cha
 	}()
 
 	return resCh, nil
+}
+
+// isEmptySelectionResult returns true if none of the selections of the result has an item
+// (the result of a selection that matched nothing is a map holding an empty list, not an empty map).
+func isEmptySelectionResult(result map[string]any) bool {
+	for _, selection := range result {
+		switch items := selection.(type) {
+		case []map[string]any:
+			if len(items) > 0 {
+				return false
+			}
+		case []any:
+			if len(items) > 0 {
+				return false
+			}
+		case nil:
+		default:
+			return false
+		}
+	}
+	return true
 }
